@@ -620,53 +620,74 @@ def equal_under(a, b, facts):
     return None
 
 
-def case_split(terms, facts, max_cases=64):
-    """enumerate assignments of the undecided γ-conditions occurring in `terms`; yields Facts"""
+def case_split(terms, facts, max_cases=64, max_leaves=12):
+    """enumerate consistent assignments of the undecided conditions occurring in `terms` (Lin terms: their
+    γ / b2i conditions; condition tuples: their leaves).  Depth-first with pruning of infeasible partial
+    assignments; yields Facts."""
     conds = []
+
+    def add_leaf(leaf):
+        if leaf not in conds and c_not(leaf) not in conds and facts.decide(leaf) is None:
+            conds.append(leaf)
 
     def collect(t, depth=0):
         if not isinstance(t, Lin) or depth > 8:
             return
         for a in t.atoms():
             if a[0] == "gamma":
-                c = a[1]
-                for leaf in cond_atoms(c):
-                    if leaf not in conds and facts.decide(leaf) is None:
-                        conds.append(leaf)
+                collect_cond(a[1], depth + 1)
                 collect(a[2], depth + 1)
                 collect(a[3], depth + 1)
             elif a[0] == "b2i":
-                for leaf in cond_atoms(a[1]):
-                    if leaf not in conds and facts.decide(leaf) is None:
-                        conds.append(leaf)
+                collect_cond(a[1], depth + 1)
+            elif a[0] == "mem":
+                collect(a[1], depth + 1)
 
-    def collect_cond(c):
+    def collect_cond(c, depth=0):
         k = c[0]
+        if k in ("true", "false"):
+            return
         if k == "not":
-            collect_cond(c[1])
+            collect_cond(c[1], depth)
         elif k in ("and", "or"):
             for x in c[1:]:
-                collect_cond(x)
+                collect_cond(x, depth)
         elif k == "cmp":
-            collect(c[2])
-            collect(c[3])
+            collect(c[2], depth + 1)
+            collect(c[3], depth + 1)
+            add_leaf(c)
+        else:
+            add_leaf(c)
 
     for t in terms:
         if isinstance(t, Lin):
             collect(t)
         elif isinstance(t, tuple):
             collect_cond(t)
-    conds = conds[:6]
-    n = len(conds)
-    for mask in range(1 << n):
-        f = facts.copy()
-        ok = True
-        for i, c in enumerate(conds):
-            lit = c if (mask >> i) & 1 else c_not(c)
-            if f.decide(lit) is False:
-                ok = False
-                break
-            f.add(lit)
-        if ok and not f.infeasible():
+    conds = conds[:max_leaves]
+    produced = [0]
+
+    def rec(i, f):
+        if produced[0] >= max_cases:
+            return
+        # skip leaves the current facts already decide
+        while i < len(conds) and f.decide(simplify_cond(conds[i], f)) is not None:
+            i += 1
+        if i == len(conds):
+            produced[0] += 1
             f.saturate()
             yield f
+            return
+        c = conds[i]
+        for lit in (c, c_not(c)):
+            g = f.copy()
+            g.add(simplify_cond(lit, f))
+            if lit not in g.raw:
+                g.raw.append(lit)
+            if g.infeasible():
+                continue
+            yield from rec(i + 1, g)
+
+    if facts.infeasible():
+        return
+    yield from rec(0, facts.copy())
